@@ -164,6 +164,8 @@ def _tag(model, name, cxx):
         if t.get("ns"):
             q = t["ns"] + "::" + name
         return q
+    if t.get("tdanon"):
+        return name               # typedef struct { ... } name;  -- there is no tag
     if k in ("struct", "opaque"):
         return "struct " + name
     if k == "union":
@@ -242,6 +244,8 @@ def render_typedef(model, t, cxx):
             head += " : " + ", ".join(
                 (b.get("access", "public") + " " + ("virtual " if b.get("virtual") else "") + _tag(model, b["name"], True))
                 for b in t["bases"])
+        if t.get("tdanon"):
+            head = "typedef " + kw
         out.append(head + " {")
         if cxx and k == "class":
             out.append("public:")
@@ -255,7 +259,7 @@ def render_typedef(model, t, cxx):
                 pre += "static "
             out.append("  " + pre + decl(model, me["ret"], me["name"] + "(" + ps + ")", cxx)
                        + (" const" if me.get("const") else "") + (" { return 0; }" if me.get("inline") else ";"))
-        out.append("};")
+        out.append("} %s;" % ", ".join([t["name"]] + list(t.get("tdnames", []))) if t.get("tdanon") else "};")
     elif k == "enum":
         head = "enum " + ("class " if t.get("scoped") else "") + t.get("cname", t["name"])
         if t.get("underlying"):
@@ -265,7 +269,8 @@ def render_typedef(model, t, cxx):
             es.append("  " + n + ("" if v is None else " = %s" % _lit(v)))
         out.append(head + " {\n" + ",\n".join(es) + "\n};")
     elif k == "typedef":
-        out.append("typedef " + decl(model, t["type"], t.get("cname", t["name"]), cxx) + ";")
+        if not t.get("co"):       # "co": declared in the same declaration as the anonymous struct it names (see tdnames)
+            out.append("typedef " + decl(model, t["type"], t.get("cname", t["name"]), cxx) + ";")
     elif k == "opaque":
         out.append("struct " + t["name"] + ";")
     return out
@@ -293,7 +298,7 @@ def render_header(model, where=None, guard="TYPES_H", blank=0):
     sel = [t for t in model["types"] if (t.get("where", "pub") == where if where is not None
                                           else not t.get("where", "pub").startswith("tu"))]
     for t in sel:
-        if t["kind"] in ("struct", "union", "class", "opaque"):
+        if t["kind"] in ("struct", "union", "class", "opaque") and not t.get("tdanon"):
             kw = "struct" if t["kind"] == "opaque" or (t["kind"] == "class" and not cxx) else t["kind"]
             if t.get("tpl"):
                 out += _ns_wrap(t, ["template<typename T> %s %s;" % (kw, t["name"].split("<")[0]),
